@@ -21,9 +21,9 @@ static const int NS = 6;
 
 struct Counted {
 	int* p;
-	static long live;
-	Counted() : p(new int(0)) { live++; }
-	Counted(const Counted& o) : p(new int(*o.p)) { live++; }
+	static long live, made, peak;   // made = copy constructions, peak = largest `live` (both reset by the op `sortc`)
+	Counted() : p(new int(0)) { live++; if (live > peak) peak = live; }
+	Counted(const Counted& o) : p(new int(*o.p)) { live++; made++; if (live > peak) peak = live; }
 	Counted& operator=(const Counted& o) { int v = *o.p; *p = v; return *this; }
 	~Counted() { delete p; live--; }   // p is not cleared: destroying a stale bitwise copy is a double free
 	bool operator==(const Counted& o) const { return *p == *o.p; }
@@ -31,6 +31,8 @@ struct Counted {
 	bool operator<(const Counted& o) const { return *p < *o.p; }
 };
 long Counted::live = 0;
+long Counted::made = 0;
+long Counted::peak = 0;
 
 static_assert(sizeof(int) == 4, "model constant esz(int)");
 static_assert(sizeof(String) == 24, "model constant esz(String)");
@@ -62,6 +64,13 @@ template<class T> struct Buf {
 	Buf(const Toks& t, size_t from) : n((int)(t.size() - from)) { p = new T[n]; for (int i = 0; i < n; i++) parse(t[from + i], p[i]); }
 	~Buf() { delete[] p; }
 };
+// the initializer-list members: a braced list has a compile-time length, so 0..4 elements
+#define IL_CASES(N, STMT) switch (N) { \
+	case 0: { std::initializer_list<T> il = {}; STMT; break; } \
+	case 1: { std::initializer_list<T> il = { p[0] }; STMT; break; } \
+	case 2: { std::initializer_list<T> il = { p[0], p[1] }; STMT; break; } \
+	case 3: { std::initializer_list<T> il = { p[0], p[1], p[2] }; STMT; break; } \
+	default: { std::initializer_list<T> il = { p[0], p[1], p[2], p[3] }; STMT; break; } }
 template<class T> struct Desc { bool operator()(const T& a, const T& b) const { return b < a; } };
 
 // sort() on a thread with a small stack: a recursion as deep as the array is long overflows it
@@ -150,6 +159,7 @@ template<class C, class T> struct Table {
 		if (op == "new" && n == 3) { delete H[h]; H[h] = 0; H[h] = new C(); return "ok"; }
 		if (op == "ksort" && n == 5) { if (!H[h]) H[h] = new C(); return ksort((Array<T>&)*H[h], (int)num(t[3]), (int)num(t[4])) ? "ok" : "bad-op"; }
 		if (op == "newp" && n >= 3) { Buf<T> b(t, 3); delete H[h]; H[h] = 0; Array<T> r(b.p, b.n); store(h, r); return "ok"; }
+		if (op == "newil" && n >= 3 && n <= 7) { Buf<T> b(t, 3); const T* p = b.p; delete H[h]; H[h] = 0; IL_CASES(b.n, { Array<T> r(il); store(h, r); }) return "ok"; }
 		if (op == "newn" && n == 5) { T v; parse(t[4], v); delete H[h]; H[h] = 0; Array<T> r((int)num(t[3]), v); store(h, r); return "ok"; }
 		if (op == "cp" && n == 4) { int g = slot(t[3]); if (!H[g]) return "skip"; C* c = new C(*H[g]); delete H[h]; H[h] = c; return "ok"; }
 		if (op == "asg" && n == 4) { int g = slot(t[3]); if (!H[h] || !H[g]) return "skip"; *H[h] = *H[g]; return "ok"; }
@@ -194,6 +204,13 @@ template<class C, class T> struct Table {
 		if (op == "sort" && n == 3) { a.sort(); return "ok"; }
 		if (op == "sortd" && n == 3) { a.sort(Desc<T>()); return "ok"; }
 		if (op == "sortby" && n == 4) { a.sortBy(KeyOf<T>(), num(t[3]) != 0); return "ok"; }
+		if (op == "sortc" && n == 4 && showLive_) {
+			// sort of counted elements: copies made by the sort (pivots + swap temporaries) and the most that were alive at once
+			long base = Counted::live; Counted::made = 0; Counted::peak = base; long m = num(t[3]) % 4;
+			if (m == 1) a.sort(Desc<T>()); else if (m == 2) a.sortBy(KeyOf<T>(), true); else if (m == 3) a.sortBy(KeyOf<T>(), false); else a.sort();
+			return "t " + str(Counted::made) + " " + str(Counted::peak - base); }
+		if (op == "asgil" && n >= 3 && n <= 7) { Buf<T> b(t, 3); const T* p = b.p; if (b.n > a.cap() && shared) return "skip"; IL_CASES(b.n, (Array<T>&)a = il) return "ok"; }
+		if (op == "appil" && n >= 3 && n <= 7) { Buf<T> b(t, 3); const T* p = b.p; if (len + b.n > a.cap() && shared) return "skip"; IL_CASES(b.n, a.append(il)) return "ok"; }
 		if (op == "copyp" && n >= 3) { Buf<T> b(t, 3); if (b.n > a.cap() && shared) return "skip"; a.copy(b.p, b.n); return "ok"; }
 		if (op == "appp" && n >= 3) { Buf<T> b(t, 3); if (len + b.n > a.cap() && shared) return "skip"; a.append(b.p, b.n); return "ok"; }
 		if (op == "appown" && n == 5) { int j = (int)(num(t[3]) % (len + 1)); int k = (int)(num(t[4]) % (len - j + 1));
@@ -233,14 +250,16 @@ template<class C, class T> struct Table {
 
 	static bool known(const std::string& op, size_t n)
 	{
-		static const char* ops[] = { "drop", "app", "xapp", "push", "put", "ins", "appo", "inso", "insx", "rem", "remone", "reml", "rsz", "res", "clr", "sort", "sortd", "sortby", "copyp", "appp", "iter", "appown", "copyown", "remx",
+		static const char* ops[] = { "drop", "app", "xapp", "push", "put", "ins", "appo", "inso", "insx", "rem", "remone", "reml", "rsz", "res", "clr", "sort", "sortd", "sortby", "sortc", "asgil", "appil", "copyp", "appp", "iter", "appown", "copyown", "remx",
 			"dup", "remif", "apnd", "copy", "set", "get", "idx", "last", "eq", "pop", "popn", "popget", "top", "qget", 0 };
 		for (int i = 0; ops[i]; i++) if (op == ops[i]) return true;
 		return false;
 	}
 
+	bool showLive_;
 	std::string step(const Toks& t, bool showLive)
 	{
+		showLive_ = showLive;
 		std::string r = op(t);   // all temporaries of the operation are gone when op() returns
 		if (r == "bad-op" || r.compare(0, 3, "err") == 0) return r;
 		if (t[1] == "reset") return r;
